@@ -41,11 +41,11 @@ def _tla_table(ck, name):
 
 
 def _names_for_tlc(rows):
-    return [{"cls": r["cls"], "atom": r["atom"], "alt": r["alt"], "dim": r["dim"], "off": r["off"], "kind": r["kind"], "neg": float(r["scale"]) < 0} for r in rows]
+    return [{"cls": r["cls"], "atom": r["atom"], "alt": r["alt"], "dim": r["dim"], "off": r["off"], "kind": r["kind"], "neg": float(r["scale"]) < 0, "lg": r["lg"]} for r in rows]
 
 
 def _cfg(ck, name, **kw):
-    base = dict(Mode="valid", Depth=1, NGenNames=3, NGenCoefs=1, NGenExps=3, MaxD=3, MaxTok=2, TokPick=list(range(1, 17)), NJoin=2, Thin=1, MaxTr=1, MaxTrW=0)
+    base = dict(Mode="valid", Depth=1, NGenNames=3, NGenCoefs=1, NGenExps=3, MaxD=3, MaxTok=2, TokPick=list(range(1, 17)), NJoin=2, Thin=1, MaxTr=1, MaxTrW=0, ExpPick=[11])
     base.update(kw)
     lines = ["CONSTANTS"]
     for k, v in base.items():
@@ -56,7 +56,7 @@ def _cfg(ck, name, **kw):
 
 
 def _ast_cases(res, tables, coefs, exps):
-    return [{"k": "ast", "a": r["a"], "sp": r["sp"], "sem": r["sem"], "coefs": coefs, "exps": exps, "table": tables} for r in res.by_tag("AST")]
+    return [{"k": "ast", "a": r["a"], "st": r["st"], "ext": r["ext"], "sp": r["sp"], "sem": r["sem"], "coefs": coefs, "exps": exps, "table": tables} for r in res.by_tag("AST")]
 
 
 def _tok_cases(res):
@@ -214,7 +214,7 @@ def run(ck):
     ck.assumptions += [
         "valid side: trees over the model name table (18 spellings + alternatives), 4 coefficients, 10 exponents; irrational coefficients, exponents whose 12x dimension is not integral, and exponents/coefficients beyond the 32-bit pipeline are excluded from generation (Good)",
         "equal units = dimension (exact, TLC), offset (exact repr, TLC), scale within rel 1e-9 of [[e]] evaluated on the registry's table (harness tolerance match)",
-        "total side: 28-token alphabet, two joiners; outcome Hang = no answer within the per-case wall-clock limit (6 s; the generated power towers need minutes)",
+        "total side: 28-token alphabet, two joiners; outcome Hang = the case consumed the per-case limit of 6 CPU-seconds in its child process without answering (the generated power towers need minutes); wall-clock cap 360 s",
         "foreign evaluation is observed through sympy's eval_expr: names resolved outside {Symbol, Integer, Float, Rational, sqrt}, attribute loads, lambdas, imports, assignments",
         "name sweep excludes names the independent reading cannot resolve (prefix-word + degree-sign alternatives: C14's finding) and the empty alias of dimensionless",
         "a unit whose expression is the number 1 (prints as 'dimensionless') is not treated as coefficient free: only equality is demanded of its re-reading",
@@ -226,6 +226,8 @@ def run(ck):
     rows_sw = tables["sweep"]["rows"]
     p_mc = ck.write_json("names_mc.json", _names_for_tlc(rows_mc))
     p_sw = ck.write_json("names_sweep.json", _names_for_tlc(rows_sw))
+    rows_mag = tables["mag"]["rows"]
+    p_mag = ck.write_json("names_mag.json", _names_for_tlc(rows_mag))
     coefs = _tla_table(ck, "Coefs")
     exps = _tla_table(ck, "Exps")
     ck.cov["name_tables"] = {"model": len(rows_mc), "sweep": len(rows_sw), "sweep_excluded": len(tables["sweep"]["excluded"])}
@@ -233,7 +235,7 @@ def run(ck):
     if ck.replay:
         blob = json.load(open(ck.replay))
         case = blob["case"]
-        rows, path = (rows_sw, p_sw) if case.get("table") == "sweep" else (rows_mc, p_mc)
+        rows, path = (rows_sw, p_sw) if case.get("table") == "sweep" else (rows_mag, p_mag) if case.get("table") == "mag" else (rows_mc, p_mc)
         obs = ck.pmap("impl_c20", "observe", [case], nproc=1, common={"names": rows})
         _validate(ck, [(obs, [case], path, "replay", 10)])
         return
@@ -244,7 +246,7 @@ def run(ck):
     gen = [
         dict(module="MC_C20", cfg=_cfg(ck, "MC_C20_valid", Mode="valid", Depth=2, NGenNames=nn, NGenCoefs=nc, NGenExps=ne), env={"NAMES": p_mc}, workers=1,
              label=f"valid trees depth<=2 names={nn} coefs={nc} exps={ne}", required_actions=["Next"], timeout=3000),
-        dict(module="MC_C20", cfg=_cfg(ck, "MC_C20_mcsweep", Mode="sweep", NGenNames=len(rows_mc), NGenExps=len(exps)), env={"NAMES": p_mc}, workers=1,
+        dict(module="MC_C20", cfg=_cfg(ck, "MC_C20_mcsweep", Mode="sweep", NGenNames=len(rows_mc), NGenExps=10), env={"NAMES": p_mc}, workers=1,
              label="model table x unary templates", required_actions=["Next"]),
         dict(module="MC_C20", cfg=_cfg(ck, "MC_C20_build", Mode="build", NGenNames=ck.q(6, 8), NGenCoefs=2, NGenExps=ck.q(5, 6), MaxD=depth, Thin=ck.q(97, 7)), env={"NAMES": p_mc},
              workers=1, simulate=ck.q(15, 120), depth=depth + 1, label=f"builder simulation depth={depth}", timeout=3000),
@@ -259,6 +261,12 @@ def run(ck):
                     label="python corner: head x trailers x wrapper x warm/cold", required_actions=["Next"], timeout=3000))
     gen.append(dict(module="MC_C20", cfg=_cfg(ck, "MC_C20_persist", Mode="persist"), env={"NAMES": p_mc}, workers=1,
                     label="persistence: registry kind x form x carrier x route", required_actions=["Next"]))
+    # magnitude: extreme-scale names x large integer exponents (strings and unit arithmetic, printed and re-read)
+    gen.append(dict(module="MC_C20", cfg=_cfg(ck, "MC_C20_mag", Mode="mag", NGenNames=len(rows_mag), ExpPick=ck.q([11, 12, 13, 17], [11, 12, 13, 14, 15, 16, 17])), env={"NAMES": p_mag},
+                    workers=1, label="magnitude: extreme-scale names x large integer exponents", required_actions=["Next"], timeout=3000))
+    # exponent forms: every float / rational spelling in every syntactic position
+    gen.append(dict(module="MC_C20", cfg=_cfg(ck, "MC_C20_expform", Mode="expform", NGenNames=ck.q(2, 3), NGenCoefs=2, NGenExps=ck.q(5, 10)), env={"NAMES": p_mc},
+                    workers=1, label="exponent/coefficient forms x positions", required_actions=["Next"], timeout=3000))
     NFIX = len(gen)
     for n, (lab, kw) in enumerate(toks):
         gen.append(dict(module="MC_C20", cfg=_cfg(ck, f"MC_C20_tok{n}", Mode="tok", **kw), env={"NAMES": p_mc}, workers=1, label="token sequences " + lab, required_actions=["Next"], timeout=3000))
@@ -334,11 +342,22 @@ def run(ck):
     ck.cov["persistence_cases"] = len(scases2)
     ck.cov["uncovered"] = list(ck.cov.get("uncovered", [])) + ["savetxt/loadtxt of a re-valued default symbol: nothing travels with the text and loadtxt takes no registry (read with the stock value; not demanded)"]
 
+    # ---- (a'') magnitude and exponent-form trees
+    mcases = _ast_cases(res[6], "mag", coefs, exps)
+    mobs = _replay(ck, mcases, rows_mag)
+    ck.cov["magnitude_cases"] = {"trees": len(mcases), "extreme": sum(1 for c in mcases if c["ext"])}
+    ecases = _ast_cases(res[7], "mc", coefs, exps)
+    eobs = _replay(ck, ecases, rows_mc)
+    ck.cov["exponent_form_cases"] = {"trees": len(ecases), "spellings": sum(len(c["sp"]) for c in ecases)}
+    if ck.cov["magnitude_cases"]["extreme"] < 20:
+        raise MachineryFailure("the magnitude instance produced no extreme trees")
+
     # ---- validation: TLC evaluates the predicates on every observation
     _validate(ck, [(obs, cases, p_mc, "valid", 3000), (sobs, scases, p_sw, "sweep", 3000), (tobs, tcases, p_mc, "tokens", 60000), (fobs, fcases, p_mc, "fuzz", 60000),
-                   (pobs, pcases, p_mc, "python", 60000), (sobs2, scases2, p_mc, "persist", 60000)])
-    n_eval = sum(len(o["sp"]) + len(o["rt"]) for o in obs) + sum(len(o["sp"]) + len(o["rt"]) for o in sobs) + len(tobs) + len(fobs) + len(pobs) + len(sobs2)
-    n_nontrivial = len(cases) + len(scases) + sum(1 for o in tobs if o["o"] != "UnitParseError" or o["ev"]) + len(scases2) + len(set(c["s"] for c in pcases))
+                   (pobs, pcases, p_mc, "python", 60000), (sobs2, scases2, p_mc, "persist", 60000),
+                   (mobs, mcases, p_mag, "magnitude", 3000), (eobs, ecases, p_mc, "expforms", 3000)])
+    n_eval = sum(len(o["sp"]) + len(o["rt"]) for o in obs) + sum(len(o["sp"]) + len(o["rt"]) for o in sobs) + len(tobs) + len(fobs) + len(pobs) + len(sobs2) + sum(len(o["sp"]) + len(o["rt"]) for o in mobs + eobs)
+    n_nontrivial = len(cases) + len(scases) + sum(1 for o in tobs if o["o"] != "UnitParseError" or o["ev"]) + len(scases2) + len(set(c["s"] for c in pcases)) + len(mcases) + len(ecases)
 
     _debug_dump(ck)
     ck.cov["exhaustive"] = True
